@@ -507,7 +507,11 @@ def observe_layout(tree, record, paths, text, text_sized=False):
                 continue
             kind, x = pre[-1]
             try:
-                navs[pre] = navs[par].index(x) if kind == 1 else navs[par].name(names[x])
+                # the subscript spelling nav[...] is the documented wrapper for name() / index(): every other step uses it
+                if (len(pre) + (x if kind == 1 else 0)) % 2:
+                    navs[pre] = navs[par][x] if kind == 1 else navs[par][names[x]]
+                else:
+                    navs[pre] = navs[par].index(x) if kind == 1 else navs[par].name(names[x])
             except BaseException as ex:
                 if isinstance(ex, (KeyboardInterrupt, SystemExit)):
                     raise
@@ -521,6 +525,13 @@ def observe_layout(tree, record, paths, text, text_sized=False):
         try:
             nav = navs[t]
             raw = nav.raw()
+            # the same bytes by the two other routes the API offers (the Location's own raw(), a cloned instance): when one of
+            # them reads differently it is that reading which is reported
+            for other in (lambda: nav.location.raw(nav.instance), lambda: nav.raw_instance()):
+                alt = other()
+                if alt != raw or type(alt) is not type(raw) and not isinstance(alt, type(raw)):
+                    raw = alt
+                    break
             raw = [ord(c) for c in raw] if text else list(raw)
             out.append([p, [0, nav.location.start, nav.location.end, raw]])
         except BaseException as ex:
